@@ -167,10 +167,14 @@ def _needs_of(formula):
     return e[1] if e is not None else None
 
 
+RLIMIT_PER_MS = 2500      # as pyvc.engine.discharge: the budget is z3's deterministic resource limit; the wall clock is a safety net only
+
+
 def _discharge_once(run, formula, npc, nax, timeout_ms, extra):
     t0 = time.time()
     s = z3.Solver()
-    s.set('timeout', timeout_ms)
+    s.set('rlimit', int(timeout_ms) * RLIMIT_PER_MS)
+    s.set('timeout', max(int(timeout_ms) * 15, 120000))
     allowed = _needs_of(formula)
     tags = {}
     tags.update(getattr(run, 'np_fact_tags', {}))
@@ -197,7 +201,7 @@ def _discharge_once(run, formula, npc, nax, timeout_ms, extra):
     return 'unknown', s.reason_unknown(), dt
 
 
-def _discharge_with_retries(run, formula, npc=None, nax=None, timeout_ms=10000, extra=()):
+def _discharge_with_retries(run, formula, npc=None, nax=None, timeout_ms=10000, extra=(), rlimit=None):
     """engine.discharge with (1) the relevance filter above and (2) retries: z3's quantifier instantiation is sensitive to
     term numbering; an `unknown` is retried with other random seeds (an `unknown` never becomes a verdict, so retrying
     only reduces undecided results)."""
@@ -574,16 +578,16 @@ def _rank_post(p, pre):
     c, j = z3.Int('c!post'), z3.Int('j!post')
     if conc(n) is not None:
         obs.append((pre + '.spec', QA(n, lambda i: zero(i) == opt(P, i, n, d))))
-        obs.append((pre + '.count', QA(n, lambda i: val(i) == NP._count_terms([dom(P, t, P, i, d) for t in range(conc(n))]))))
+        obs.append((pre + '.rank_is_number_of_dominators', QA(n, lambda i: val(i) == NP._count_terms([dom(P, t, P, i, d) for t in range(conc(n))]))))
     else:
         obs.append((pre + '.spec', z3.Implies(z3.And(c >= 0, c < zi(n)), zero(c) == opt(P, c, n, d))))
         cnt = getattr(res, 'count_of', None)
         if cnt is not None:
             gfn, red = cnt
             # rank[i] is the boolean sum over j < n of an indicator that is exactly dom(P[j], P[i])
-            obs.append((pre + '.count', z3.And(zi(red) == zi(n), z3.Implies(z3.And(c >= 0, c < zi(n), j >= 0, j < zi(n)), gfn(c, j) == dom(P, j, P, c, d)))))
+            obs.append((pre + '.rank_is_number_of_dominators', z3.And(zi(red) == zi(n), z3.Implies(z3.And(c >= 0, c < zi(n), j >= 0, j < zi(n)), gfn(c, j) == dom(P, j, P, c, d)))))
         elif p.run.pc is not None:
-            obs.append((pre + '.count', z3.BoolVal(conc(n) == 0) if conc(n) is not None else (zi(n) == 0)))
+            obs.append((pre + '.rank_is_number_of_dominators', z3.BoolVal(conc(n) == 0) if conc(n) is not None else (zi(n) == 0)))
     return obs
 
 
@@ -1629,6 +1633,40 @@ def xla_is_dominated_contract(it, args, kw):
     return body_of(GE, GT, strict)(i2, i1)
 
 
+def _inv_frontier(it, fr, ctx):
+    """for begin, end in zip(idx[1:], idx[:-1]) over a boundary list of SYMBOLIC length (Appendix F, is_frontier):
+         contiguous, ordered slices:  end(i+1) == begin(i),  0 <= begin(i) <= end(i) <= B          (checked at loop entry)
+         frontier[j]  <=>  no point of the rows [low_i, end(0)) dominates ys[j],   low_i = begin(i-1)  (low_0 = end(0))
+    The coverage clause -- the processed rows are all of [0, B) -- is an obligation of the postcondition."""
+    run = it.run
+    g = run.c11
+    ys = param(fr, 0)
+    F = entry_local(fr, ctx, _is_mask, 'boolean mask')
+    en, i = ctx.iter, ctx.i
+    B, d = ys.shape
+    Bz = zi(B)
+    pair = lambda x: en.get(x)
+    begin, end = (lambda x: zi(pair(x)[0])), (lambda x: zi(pair(x)[1]))
+    m = en.n
+    GEf, GTf = row_preds(run, ys.fn, ys.fn, 0, d)
+    hi0 = end(z3.IntVal(0))
+    low = lambda ii: z3.If(ii == 0, hi0, begin(ii - 1))
+    f = F.fn
+    dominated = lambda j, lo_: QE(hi0, lambda t: z3.And(GEf(t, j), GTf(t, j)), lo=lo_)
+    g['sym_loop'] = dict(m=m, begin=begin, end=end, hi0=hi0, B=B)
+    shape = [('contiguous', QA(m - 1, lambda x: end(x + 1) == begin(x))),
+             ('ordered', QA(m, lambda x: z3.And(0 <= begin(x), begin(x) <= end(x), end(x) <= Bz)))]
+    if ctx.phase == 'init':
+        return shape + [('frontier', QA(B, lambda j: f(j) == z3.Not(dominated(j, low(i))))), ('len', zi(F.shape[0]) == Bz)]
+    if ctx.phase == 'head':
+        return shape + [('frontier', QA(B, lambda j: f(j) == z3.Not(dominated(j, low(i))))), ('len', zi(F.shape[0]) == Bz)]
+    jj = run.fresh('jj', z3.IntSort())
+    return [('frontier', z3.Implies(z3.And(jj >= 0, jj < Bz), f(jj) == z3.Not(dominated(jj, z3.simplify(low(i)))))), ('len', zi(F.shape[0]) == Bz)]
+
+
+E.LOOPS[(XLA, 'is_frontier', 1)] = E.LoopSpec(_inv_frontier)
+
+
 def xla_frontier_entry(k, via_class=False):
     def entry_of(sz):
         def entry(it):
@@ -1662,6 +1700,14 @@ def xla_frontier_post(pre):
         shards = g.get('shards', [])
         masks = [v[1] for v in getattr(p.run, 'np_masks', {}).values()]
         GEf, GTf = row_preds(p.run, P.fn, P.fn, 0, d)
+        if 'sym_loop' in g:
+            # the shard boundaries are a list of symbolic length: loop contract _inv_frontier; what remains is the coverage clause
+            sl = g['sym_loop']
+            m, nz = sl['m'], zi(n)
+            covered = z3.Or(nz == 0, z3.And(m >= 1, sl['begin'](m - 1) <= 0, sl['hi0'] >= nz))
+            obs.append((pre + '.shards_cover_all_points', covered, 'lemma'))
+            obs.append((pre + '.iff', z3.Implies(rng, res.at(c) == z3.Not(QE(n, lambda t_: z3.And(GEf(t_, c), GTf(t_, c)))))))
+            return obs
         if len(masks) == len(shards) and shards:
             # per-shard lemmas (Appendix F):  frontier_r[j] <=> frontier_{r-1}[j] and no point of shard r dominates ys[j]
             front = lambda j: z3.BoolVal(True)
@@ -1709,7 +1755,8 @@ def check_xla_frontier(chk, tier, k, via_class=False):
     if k == 1 and open_finding(chk, 'C11.xla.is_frontier.iff[num_shards=1]'):
         known = {pre + '.iff': (XLA_KNOWN, lambda p: True)}
     Fn(chk, tier, name, xla_frontier_entry(k, via_class), xla_frontier_post(pre), replay_of=replay_points('xla', {'fn': name, 'num_shards': k}),
-       known=known, bounded_sizes=[(2, 1), (2, 2), (3, 2)], rename=(lambda x: rn(x) + tag), workers=1, expect_paths=1,
+       known=known, bounded_sizes=[(2, 1), (2, 2), (3, 2)] + ([(2 * k + 1, 1)] if k >= 2 else []),      # 2k+1 points: not a multiple of the shard count
+       rename=(lambda x: rn(x) + tag), workers=1, expect_paths=1,
        timeout_ms=8000 if tier == 'quick' else 60000).run()
 
 
